@@ -63,7 +63,7 @@ def run_string(svg, d, out, tags=None, expect_ok=True):
         except Exception:  # noqa
             pass
     try:
-        p = svg.Path(d)
+        p = out.keep(svg.Path(d))
     except Exception as e:  # noqa
         out.fail("conforming path data raised %s: %r" % (type(e).__name__, d), [s.as_dict() for s in ref.segments],
                  repr(e), kind="exception", exc=type(e).__name__, **(tags or {}))
